@@ -915,8 +915,10 @@ class HistoryMachine(ListingBase):
                 for k_, is_short in enumerate(lst._short):
                     if is_short:
                         span = (poss[k_], poss[k_ + 1] if k_ + 1 < len(poss) else len(self.data))
-                        if any(L.table == tname and L.row == r
-                               for L in locate_rows(self.data, lst, None, span=span)):
+                        rn = lst._table[tname].row_name
+                        if any(L.table == tname and (L.row == r or rn[L.row] == rn[r])
+                               for L in locate_rows(self.data, lst, None, span=span,
+                                                    allow_dups=True)):
                             nshort += 1
                 if nshort and len(vals) == n and sum(lst._short) == nshort:
                     raise Violation('H2.len', '%s: item %r has %d values, but the row is also '
@@ -1053,7 +1055,7 @@ class Located(object):
     __slots__ = ('table', 'row', 'offset', 'line', 'tail', 'full')
 
 
-def locate_rows(data, lst, index, encoding='latin-1', span=None):
+def locate_rows(data, lst, index, encoding='latin-1', span=None, allow_dups=False):
     """For result set `index` of the (unmodified) image: the data lines of every table the
     reader exposes, found by an independent scan.  Returns list of Located."""
     starts = sorted(lst._pos)
@@ -1103,8 +1105,10 @@ def locate_rows(data, lst, index, encoding='latin-1', span=None):
         if key is None or key not in keysets[cur]:
             continue
         rows = keysets[cur][key]
-        if len(rows) != 1:
+        if len(rows) != 1 and not allow_dups:
             continue                      # duplicate keys (TOUGH2-MP): not addressed by name
+        if len(rows) != 1:
+            rows = rows[-1:]              # (only to learn that a row of this name is printed)
         L = Located()
         L.table, L.row, L.offset, L.line, L.tail = cur, rows[0], off, line, tail
         ncols = t.num_columns
@@ -1117,6 +1121,8 @@ def locate_rows(data, lst, index, encoding='latin-1', span=None):
         out.append(L)
     # a row printed more than once (TOUGH2-MP prints shared rows once per processor): which
     # print the reader keeps is its choice, so such rows are not addressed
+    if allow_dups:
+        return out
     cnt = {}
     for L in out:
         cnt[(L.table, L.row)] = cnt.get((L.table, L.row), 0) + 1
